@@ -48,3 +48,117 @@ func init() {
 		Rule:        sharedRule + "oracle around every accepted tx: privileged messages signed by a non-authority are never accepted; for every account other than the signers (liquid balance, delegated+unbonding stake, reward credit, selected reporter) is not reduced/changed except the three listed exceptions; registered specs change only via MsgUpdateDataSpec",
 		QuickBudget: 6 * time.Minute, ThoroughBudget: 25 * time.Minute})
 }
+
+// focusedDFS runs an exhaustive DFS over a sub-alphabet (selected by label predicate) from the standard set-up.
+func focusedDFS(rc *RunCtx, name string, cfg Config, mintOn bool, prep []string, keep func(label string) bool, gaps []time.Duration, mons []Monitor, depth int, horizon []time.Duration) {
+	if rc.Replay != nil && rc.Replay.Scenario != name {
+		return
+	}
+	w := NewWorld(cfg)
+	c := StdSetup(w, mintOn)
+	full := FullAlphabet(c)
+	alpha := func(w *World) []Event {
+		var out []Event
+		for _, ev := range full(w) {
+			if keep(ev.Label) {
+				out = append(out, ev)
+			}
+		}
+		for _, g := range gaps {
+			out = append(out, BlockEv(g))
+		}
+		return out
+	}
+	resolve := Resolver(nil, WithBlocks(full))
+	e := &Explorer{RC: rc, Scenario: name, Monitors: mons, Horizon: horizon}
+	if rc.Replay != nil {
+		e.ReplayTrace(w, rc.Replay.Trace, resolve)
+		return
+	}
+	cur := w
+	for _, l := range prep {
+		ev, ok := resolve(cur, l)
+		if !ok {
+			panic(name + " prep: cannot resolve " + l)
+		}
+		e.quiet = rc.Worker != 0
+		n, out := e.Step(cur, ev)
+		e.quiet = false
+		if out.Kind == "tx-rej" || out.Kind == "halt" {
+			panic(name + " prep failed at " + l + ": " + out.Err)
+		}
+		cur = n
+	}
+	// shard on the first two events
+	for _, ev := range alpha(cur) {
+		n, out := e.Step(cur, ev)
+		if out.Kind == "tx-rej" || out.Kind == "halt" {
+			continue
+		}
+		if depth <= 1 {
+			if rc.Mine() {
+				e.RunHorizon(n)
+			}
+			continue
+		}
+		for _, ev2 := range alpha(n) {
+			if !rc.Mine() {
+				continue
+			}
+			n2, out2 := e.Step(n, ev2)
+			if out2.Kind == "tx-rej" || out2.Kind == "halt" {
+				continue
+			}
+			e.DFS(n2, alpha, depth-2)
+		}
+	}
+	rc.Sample(map[string]interface{}{"scenario": name, "prefix": prep, "depth": depth, "alphabet": labels(alpha(cur))})
+}
+
+func hasAnyPrefix(s string, ps ...string) bool {
+	for _, p := range ps {
+		if len(s) >= len(p) && s[:len(p)] == p {
+			return true
+		}
+	}
+	return false
+}
+
+func init() {
+	Register("C07", &CheckInfo{Level: "model_checking", QuickBudget: 7 * time.Minute, ThoroughBudget: 30 * time.Minute,
+		Rule: "round monitor derived from the statement (accepted report => tip>0 or scheduled-by-rotation or deposit, height <= expiry, not jailed, stake >= minimum recomputed from staking, never a withdrawal query; later report replaces the earlier; at EndBlock exactly the rounds with reports whose window closed produce one aggregate each, leave the store and their tips leave the oracle account; untouched tips stay; the cycle index changes only with no open window and then to (i+1) mod n) evaluated on (a) an exhaustive DFS depth 5 (quick) / 7 (thorough) over {Tip cyc/next/modeq/modeq2/dep/wd, Submit R1/R2 on cyc/next/modeq/dep/wd, gov cyclelist reorder/shrink/grow, gov spec window 0/5, min-stake change, Block 1s} from the standard state with state-hash dedup, and (b) all <=k-deviation histories around the shared skeletons",
+		Fn: func(rc *RunCtx) {
+			mons := []Monitor{RoundMonitor{}}
+			depth := 5
+			if !rc.Quick() {
+				depth = 7
+			}
+			focusedDFS(rc, "round-dfs", Config{}, true, nil, func(l string) bool {
+				return hasAnyPrefix(l, "Tip(cyc", "Tip(next", "Tip(modeq,50)", "Tip(modeq2", "Tip(dep1", "Tip(wd1", "Submit(R1,cyc,std)", "Submit(R2,cyc,std200)", "Submit(R1,next", "Submit(R1,modeq,std)", "Submit(R2,modeq,std200)",
+					"Submit(R1,dep1,valid)", "Submit(R1,wd1", "Cyclelist(gov,[btc,eth])", "Cyclelist(gov,+modeq)", "Cyclelist(gov,[eth])", "UpdateSpec(gov,modeq,w=0)", "UpdateSpec(gov,modeq,w=5)", "UpdateSpec(gov,spotprice,w=0)", "OracleParams(gov,minstake=1e12)")
+			}, []time.Duration{time.Second}, mons, depth, []time.Duration{time.Second, time.Second, time.Second, time.Second})
+			runSkeletons(rc, mons, kOf(rc))
+		}})
+	Register("C10", &CheckInfo{Level: "model_checking", QuickBudget: 7 * time.Minute, ThoroughBudget: 30 * time.Minute,
+		Rule: "power monitor: on every accepted report the carried power and the stored per-backer stake snapshot equal an independent recomputation from the staking and selector stores (all delegations of every unlocked selector to bonded validators); accepted joins respect the selector cap and the reporter's minimum; no report while jailed, no release before the jail time; no selector backs two different reporters within the unbonding period; evaluated on (a) exhaustive DFS depth 4 (quick) / 6 (thorough) over {Delegate, Delegate 2nd validator, big delegate (bonding change), Undelegate all/half, Redelegate, CreateReporter, Select, Switch x2, RemoveSelector, MaxSelectors=1, dispute (jail), Unjail, Submit R1/R2, Block 1s/21d} in two worlds (MaxValidators 100 and 2, so both stake-counting paths run) and (b) all <=k-deviation histories around the shared skeletons",
+		Fn: func(rc *RunCtx) {
+			mons := []Monitor{PowerMonitor{}}
+			depth := 4
+			if !rc.Quick() {
+				depth = 6
+			}
+			keep := func(l string) bool {
+				return hasAnyPrefix(l, "Delegate(R1,V1,10)", "Delegate(S1,V2,5)", "Delegate(Payer,V3,150)", "Undelegate(R1,V1,all)", "Undelegate(R1,V1,half)", "Undelegate(S1,V1,all)", "Redelegate(R1,V1->V2,half)", "Redelegate(R2,V2->V3,all)",
+					"Delegate+CreateReporter(Payer,comm=0)", "Delegate+Select(Payer->R1)", "Switch(", "RemoveSelector", "ReporterParams(gov,maxsel=1)", "Propose(Payer,R1rep,warning,full)", "Unjail(R1)",
+					"Submit(R1,cyc,std)", "Submit(R2,cyc,std200)", "Submit(R1,modeq,std)", "Tip(modeq,50)")
+			}
+			gaps := []time.Duration{time.Second, 21*24*time.Hour + time.Second}
+			prep := []string{"Submit(R1,cyc,std)", "Submit(R2,cyc,std200)", b1}
+			focusedDFS(rc, "power-dfs", Config{}, false, prep, keep, gaps, mons, depth, []time.Duration{time.Second})
+			focusedDFS(rc, "power-dfs-maxval2", Config{ValStakes: []int64{5000, 3000, 2900}, MaxValidators: 2}, false, prep, keep, gaps, mons, depth, []time.Duration{time.Second})
+			runSkeletons(rc, mons, kOf(rc))
+		}})
+	Register("C09", &CheckInfo{Level: "model_checking", QuickBudget: 7 * time.Minute, ThoroughBudget: 30 * time.Minute,
+		Rule: "reward monitor with exact rational arithmetic at every EndBlock: for every tipped aggregate and for the time-based reward over all cycle-list/deposit aggregates of the block, each selector's credit delta equals R * p_r/sum(p) * (commission once to the reporter + (1-rate) * origin/total of the stake snapshot taken at report time) within 1e-18 per term, all deltas >= 0, deltas sum to R, the time-based pool is emptied exactly when such aggregates exist; evaluated on (a) commission/topology worlds (rates 0,0.05,0.5,1 and the accepted out-of-range rates 1.5,100,-0.1; 1-3 selectors x 1-2 validators; tips 1,2,3,7,1e6+1,1e15) (b) an exhaustive DFS depth 4/6 over tips/reports/blocks and (c) all <=k-deviation histories around the shared skeletons",
+		Fn: checkC09})
+}
